@@ -1573,11 +1573,11 @@ namespace awkward {
         util::handle_error(err2, classname(), identities_.get());
         return std::pair<Index64, ContentPtr>(
           tooffsets,
-          std::make_shared<UnionArray8_64>(Identities::none(),
-                                           util::Parameters(),
-                                           totags,
-                                           toindex,
-                                           contents));
+          UnionArray8_64(Identities::none(),
+                         util::Parameters(),
+                         totags,
+                         toindex,
+                         contents).simplify_uniontype(true, false));
       }
       else {
         return std::pair<Index64, ContentPtr>(
@@ -2047,11 +2047,11 @@ namespace awkward {
       for (auto content : contents_) {
         contents.push_back(content.get()->localindex(posaxis, depth));
       }
-      return std::make_shared<UnionArrayOf<T, I>>(identities_,
-                                                  util::Parameters(),
-                                                  tags_,
-                                                  index_,
-                                                  contents);
+      return UnionArrayOf<T, I>(identities_,
+                                util::Parameters(),
+                                tags_,
+                                index_,
+                                contents).simplify_uniontype(true, false);
     }
   }
 
